@@ -17,6 +17,8 @@ structure SrcInst where
   top : String
   /-- operations so far, oldest first: `pull` / `peek` -/
   log : List String := []
+  /-- what the implementation answered to the most recent `pull` (`none` = not pulled yet) -/
+  lastImpl : Option String := none
 
 structure SkInst where
   k : SinkModels.Sk V
@@ -32,6 +34,8 @@ structure FInst (F : Type) where
   outs : List (List F) := []
   /-- for a synthesis filter fed by an analysis filter: the id of that analysis instance -/
   partner : Option Nat := none
+  /-- what the implementation printed for its configuration the last time it was asked (kept across a reset) -/
+  lastCfg : Option String := none
 
 /-- pipe shapes: `L` a filter leaf (index into the leaf list), `S` the source leaf, `K` the sink leaf -/
 inductive PShape where
